@@ -44,6 +44,9 @@ pub enum Shape {
     Oversized,
     /// value of exactly the store's size limit (5 MiB): the first size that is refused
     ExactlyAtSizeLimit,
+    /// scratchpads / registers only: the object names the owner the key derives from, but is signed by
+    /// another key ("the name derived from its SIGNED owner")
+    NotSignedByOwner,
     Headerless,
     UnknownKindTag,
     TruncatedPayload,
@@ -66,7 +69,7 @@ fn case_strategy() -> BoxedStrategy<Case> {
         prop_oneof![Just(Kind::Chunk), Just(Kind::Pad), Just(Kind::Tx), Just(Kind::Reg)],
         prop_oneof![Just(Path::ClientPut), Just(Path::UnpaidUpdate), Just(Path::Replicated)],
         prop_oneof![3 => Just(Mismatch::None), 3 => Just(Mismatch::RandomKey), 3 => Just(Mismatch::OtherObjectKey), 2 => Just(Mismatch::MixedOwners)],
-        prop_oneof![30 => Just(Shape::Ok), 1 => Just(Shape::Oversized), 1 => Just(Shape::ExactlyAtSizeLimit), 2 => Just(Shape::Headerless), 2 => Just(Shape::UnknownKindTag), 2 => Just(Shape::TruncatedPayload)],
+        prop_oneof![30 => Just(Shape::Ok), 1 => Just(Shape::Oversized), 1 => Just(Shape::ExactlyAtSizeLimit), 3 => Just(Shape::NotSignedByOwner), 2 => Just(Shape::Headerless), 2 => Just(Shape::UnknownKindTag), 2 => Just(Shape::TruncatedPayload)],
         any::<bool>(),
         any::<bool>(),
         any::<u8>(),
@@ -144,7 +147,7 @@ fn check(case: &Case, ctx: &mut Ctx) {
             false
         }
     };
-    let malformed = case.shape != Shape::Ok;
+    let malformed = case.shape != Shape::Ok && !(case.shape == Shape::NotSignedByOwner && matches!(case.kind, Kind::Chunk | Kind::Tx));
     // a malformed shape replaces / mangles the record: only the malformed-record rules apply then
     let mismatched = mismatched && !malformed;
     match case.shape {
@@ -163,6 +166,35 @@ fn check(case: &Case, ctx: &mut Ctx) {
                     break;
                 }
                 len = (len + MAX).saturating_sub(rec.value.len());
+            }
+        }
+        Shape::NotSignedByOwner => {
+            use ant_protocol::storage::{try_serialize_record, RecordKind};
+            let s = case.seed as u64;
+            match case.kind {
+                Kind::Pad => {
+                    // same owner / address as the honest payload, signature by another key
+                    let bad = fix::scratchpad(10 + s % 5, 1, fix::pseudo_bytes(s, 30), 5, fix::Sig::OtherKey);
+                    rec.value = if paid {
+                        try_serialize_record(&(proof.clone(), bad), RecordKind::ScratchpadWithPayment).unwrap().to_vec()
+                    } else {
+                        fix::scratchpad_record(&bad).value
+                    };
+                }
+                Kind::Reg => {
+                    // the payload's register (owner 30 + s % 3, label s % 2), signed by a stranger
+                    let owner = 30 + s % 3;
+                    let meta = s % 2;
+                    let base = fix::register_base(owner, meta, Some(vec![]));
+                    let ops = fix::register_ops(owner, meta, 3, &[owner]);
+                    let bad = fix::signed_register(&base, 37, ops[0..2].to_vec());
+                    rec.value = if paid {
+                        try_serialize_record(&(proof.clone(), bad), RecordKind::RegisterWithPayment).unwrap().to_vec()
+                    } else {
+                        fix::register_record(rec.key.clone(), &bad).value
+                    };
+                }
+                _ => {}
             }
         }
         Shape::Headerless => rec.value = fix::pseudo_bytes(case.seed as u64, (case.seed % 3) as usize),
